@@ -531,7 +531,7 @@ class SpecModel:
         if isinstance(node, ast.Name):
             if node.id in env:
                 return self.force(env[node.id])
-            if node.id in ("list", "range", "len", "all", "any", "int", "bool", "dict", "tuple", "frozenset",
+            if node.id in ("list", "range", "len", "all", "any", "int", "bool", "dict", "tuple", "frozenset", "map",
                            "sorted", "set", "isinstance", "hasattr", "callable", "str", "type"):
                 return ExternalV("builtins." + node.id)
             if node.id == "any":
@@ -671,6 +671,20 @@ class SpecModel:
                 return Opaque("range with step")
             if f.name == "enum.auto":
                 return ExternalV("enum.auto()")
+            if f.name == "builtins.map" and len(args) == 2 and not kwargs:
+                fn_, src = args
+                items = list(range(src.start, src.stop)) if isinstance(src, RangeV) else list(src.items) if isinstance(src, TupleV) else None
+                if items is None or len(items) > 4096:
+                    return Opaque("map over an unmodelled iterable")
+                out = []
+                for x in items:
+                    if isinstance(fn_, BoundV):
+                        out.append(self.call_bound(fn_, [x], {}, mod))
+                    elif isinstance(fn_, (FuncV, LambdaV)):
+                        out.append(self.call_value(fn_, [x], mod))
+                    else:
+                        return Opaque("map of an unmodelled callable")
+                return TupleV(out)
             if f.name == "itertools.islice" and len(args) == 2 and as_int(args[1]) is not None and not kwargs:
                 n_ = as_int(args[1])
                 src = args[0]
